@@ -845,7 +845,10 @@ class StaticVector : public StaticVectorBase<T, SizeType> {
   template <class VectorType>
   void swap2_impl(VectorType &o) noexcept(is_swap_noexcept<T>::value) {
     swap_deep(this->begin(), this->size(), o.begin(), o.size());
-    swap_sizetype(this->msize(), o.msize());
+    // exchange the sizes through setSize: an inline SmallVector does not store its size as a plain word
+    const SizeType mySize = this->size();
+    this->setSize(static_cast<SizeType>(o.size()));
+    o.setSize(static_cast<typename VectorType::size_type>(mySize));
   }
 
   // Adjust capacity methods take uintmax_t as parameter to check for size_type overflow
@@ -970,7 +973,10 @@ class DynamicVector : public DynamicVectorBaseTypeDispatcher<T, Alloc, SizeType,
   void swap2_impl(StaticVector<T, OSizeType, OGrowingPolicy> &o) noexcept(is_swap_noexcept<T>::value) {
     // Here 'o' cannot grow so we cannot swap any dynamic storage. Deeply swap all elements
     swap_deep(this->begin(), this->size(), o.begin(), o.size());
-    swap_sizetype(this->msize(), o.msize());
+    // exchange the sizes through setSize: an inline SmallVector does not store its size as a plain word
+    const SizeType mySize = this->size();
+    this->setSize(static_cast<SizeType>(o.size()));
+    o.setSize(static_cast<OSizeType>(mySize));
   }
 
   template <class OAlloc, class OSizeType, bool OWithInlineElems>
@@ -978,10 +984,14 @@ class DynamicVector : public DynamicVectorBaseTypeDispatcher<T, Alloc, SizeType,
     if (this->canSwapDynStorage(o)) {
       this->swapDynStorage(o);
       swap_sizetype(this->mcapacity(), o.mcapacity());
+      swap_sizetype(this->msize(), o.msize());
     } else {
       swap_deep(this->begin(), this->size(), o.begin(), o.size());
+      // exchange the sizes through setSize: an inline SmallVector does not store its size as a plain word
+      const SizeType mySize = this->size();
+      this->setSize(static_cast<SizeType>(o.size()));
+      o.setSize(static_cast<OSizeType>(mySize));
     }
-    swap_sizetype(this->msize(), o.msize());
   }
 
   // Adjust capacity methods take uintmax_t as parameter to check for size_type overflow
